@@ -299,6 +299,28 @@ func entryPoints() []entryPoint {
 		{name: "ChmodRecursively", run: func(ctx context.Context, fs filesystem.FS, e *env) error {
 			return fs.ChmodRecursively(ctx, tree(e), 0o750)
 		}},
+		// the same tree operations on a subject that is a single file (FsCancel.tla with N = 1: the fast path of a recursive operation)
+		{name: "ChmodRecursively/file", run: func(ctx context.Context, fs filesystem.FS, e *env) error {
+			return fs.ChmodRecursively(ctx, filepath.Join(e.root, "big.bin"), 0o600)
+		}},
+		{name: "ChownRecursively/file", run: func(ctx context.Context, fs filesystem.FS, e *env) error {
+			return fs.ChownRecursively(ctx, filepath.Join(e.root, "big.bin"), os.Getuid(), os.Getgid())
+		}},
+		{name: "ChownRecursively", run: func(ctx context.Context, fs filesystem.FS, e *env) error {
+			return fs.ChownRecursively(ctx, tree(e), os.Getuid(), os.Getgid())
+		}},
+		{name: "Remove/file", run: func(ctx context.Context, fs filesystem.FS, e *env) error {
+			return fs.RemoveWithContext(ctx, filepath.Join(e.root, "big.bin"))
+		}},
+		{name: "Copy/file", run: func(ctx context.Context, fs filesystem.FS, e *env) error {
+			return fs.CopyWithContext(ctx, filepath.Join(e.root, "big.bin"), filepath.Join(e.root, "copied.bin"))
+		}},
+		{name: "Move/file", run: func(ctx context.Context, fs filesystem.FS, e *env) error {
+			return fs.MoveWithContext(ctx, filepath.Join(e.root, "big.bin"), filepath.Join(e.root, "moved.bin"))
+		}},
+		{name: "Walk/file", run: func(ctx context.Context, fs filesystem.FS, e *env) error {
+			return fs.WalkWithContext(ctx, filepath.Join(e.root, "big.bin"), func(string, os.FileInfo, error) error { return nil })
+		}},
 		{name: "GarbageCollect", run: func(ctx context.Context, fs filesystem.FS, e *env) error {
 			return fs.GarbageCollectWithContext(ctx, tree(e), time.Nanosecond)
 		}},
